@@ -234,6 +234,10 @@ TracePrim ==
                            "C07:reference-to-a-value-that-is-not-stored-there")
                    \cup If(f # <<>> /\ e.k = "write" /\ ~WriteOk(cur, e.off, e.size),
                            "C07:store-lands-on-a-value-the-record-still-owns")
+                   \cup If(f # <<>> /\ e.k = "write" /\ e.size > 0
+                           /\ \E x \in cur : x.fid # fid /\ Overlaps(x, e.off, e.size)
+                                            /\ \E g \in Range(FieldsOf(def, t[3])) : g.fid = x.fid,
+                           "C07:store-lands-on-the-bytes-of-another-field-of-the-same-variant")
                    \cup If(e.k \in {"read", "get", "get_mut"} /\ e.amod # 0,
                            "C07:misaligned-reference-or-typed-load")
                    \cup If(e.k = "write" /\ e.amod # 0 /\ ~StoreIsAlignmentFree,
